@@ -36,6 +36,7 @@ type Engine struct {
 	nodeErr  error
 	nodeInit bool
 	cfgs     []xutil.CompilerConfig
+	shared   [4]*sharedC11 // C11: per-run builders, one per mode
 }
 
 func New(tier string) kernel.Engine { return &Engine{tier: tier, cfgs: xutil.AllConfigs()} }
@@ -674,21 +675,57 @@ func msgClass(m string) string {
 	return "other"
 }
 
+type sharedC11 struct {
+	pb           *parser.Builder
+	pulls, limit int
+	prev         *parser.Parser
+	prevErrors   string
+	prevText     string
+}
+
+func (e *Engine) sharedBuilder(m xutil.Mode) *sharedC11 {
+	i := 0
+	if m.Tolerant {
+		i |= 1
+	}
+	if m.Smart {
+		i |= 2
+	}
+	if e.shared[i] == nil {
+		sb := &sharedC11{}
+		lb := lexer.NewBuilder().UseTokenInterceptor(func(l *lexer.Lexer, next func() token.Token) token.Token {
+			sb.pulls++
+			if sb.pulls > sb.limit {
+				panic(pullAbort{})
+			}
+			return next()
+		})
+		sb.pb = parser.NewBuilder(lb).WithTolerantMode(m.Tolerant).WithSmartSemicolon(m.Smart)
+		e.shared[i] = sb
+	}
+	return e.shared[i]
+}
+
 // checkC11 runs all C11 invariants for one text in one mode; returns violations (deduplicated by caller).
 func (e *Engine) checkC11(text string, m xutil.Mode, f *Fault, st *kernel.Stats, add func(kind, sig, detail string)) {
-	// pull counter: a pass-through token interceptor (bounded-step liveness)
-	pulls := 0
+	// pull counter: a pass-through token interceptor (bounded-step liveness). One builder per mode serves
+	// all texts of a run: tools re-parse with the builder they configured once.
 	limit := 4*len(text) + 64
-	lb := lexer.NewBuilder().UseTokenInterceptor(func(l *lexer.Lexer, next func() token.Token) token.Token {
-		pulls++
-		if pulls > limit {
-			panic(pullAbort{})
-		}
-		return next()
-	})
-	pb := parser.NewBuilder(lb).WithTolerantMode(m.Tolerant).WithSmartSemicolon(m.Smart)
-	o := xutil.Parse(pb, text)
+	sb := e.sharedBuilder(m)
+	sb.pulls, sb.limit = 0, limit
+	o := xutil.Parse(sb.pb, text)
 	st.Inc("c11.parses")
+	// what an earlier parser of this builder reported must still be what it reports now
+	if sb.prev != nil {
+		if now := xutil.ErrorsString(sb.prev.Errors()); now != sb.prevErrors {
+			add("errors-changed", "errors-changed-by-later-parser", fmt.Sprintf("mode %s: a parser built earlier from the same builder reported %q for input %q; after this parse it reports %q", m, sb.prevErrors, sb.prevText, now))
+		}
+		st.Inc("c11.earlier_parser_errors_rechecked")
+	}
+	sb.prev = nil
+	if o.Panic == nil && o.Parser != nil {
+		sb.prev, sb.prevErrors, sb.prevText = o.Parser, xutil.ErrorsString(o.Errors), text
+	}
 	if o.Panic != nil {
 		if _, ok := o.Panic.(pullAbort); ok {
 			add("no-progress", "pull-bound", fmt.Sprintf("mode %s: the parser requested more than %d tokens for a %d-byte input (loop that keeps pulling end-of-input)", m, limit, len(text)))
@@ -725,6 +762,9 @@ func (e *Engine) checkC11(text string, m xutil.Mode, f *Fault, st *kernel.Stats,
 		case (err2 != nil) != (n2 > 0):
 			add("err-iff", fmt.Sprintf("second-call|err-iff|err=%v", err2 != nil), fmt.Sprintf("mode %s: a second ParseProgram call on the same parser returned error value %v while the error list has %d entries", m, err2, n2))
 		}
+	}
+	if sb.prev == o.Parser && o.Parser != nil {
+		sb.prevErrors = xutil.ErrorsString(o.Parser.Errors()) // what this parser reports once it is done with
 	}
 	var nilStmt, missing string
 	walkTree(reflect.ValueOf(o.Program), "", &nilStmt, &missing, 0)
@@ -841,6 +881,7 @@ func neighbours(st *kernel.Stats) {
 }
 
 func (e *Engine) runC11(ch *kernel.Chooser, st *kernel.Stats) kernel.RunResult {
+	e.shared = [4]*sharedC11{} // fresh builders for every run: a run is a pure function of its tape
 	neighbours(st)
 	var texts []Fault
 	var base string
